@@ -26,6 +26,8 @@ class BuiltinMixin:
 
     def bi_len(self, p, args, kwargs, node):
         v = args[0]
+        if isinstance(v, VNone):
+            return [(p, Exc("TypeError", f"L{getattr(node, 'lineno', '?')}:len(None)"))]
         if isinstance(v, VOpaque) and self.lenient:
             n = z3.Int(fresh_name("opaque_len"))
             p.assume(n >= 0)
@@ -45,6 +47,11 @@ class BuiltinMixin:
                 if d.box[0] == "dict":
                     return [(p, VInt(bv.keys.len))]
             if v.cls in ("list[?]", "dict[?]", "set[?]"):
+                if self.lenient:
+                    # an untyped local container may have been filled (with unmodelled values / in a cut loop)
+                    n = z3.Int(fresh_name("opaque_len"))
+                    p.assume(n >= 0)
+                    return [(p, VInt(n))]
                 return [(p, VInt(0))]
             m = self.find_method(v.cls, "__len__")
             if m:
@@ -461,7 +468,7 @@ class BuiltinMixin:
         kind = recv.cls.split("[")[0]
         if recv.cls.endswith("[?]"):
             if self.lenient and name in ("append", "insert", "extend", "add", "update", "setdefault") and \
-                    any(isinstance(a, VOpaque) for a in args):
+                    any(_has_opaque(a) for a in args):
                 # an unmodelled value goes into a still untyped local container: the container becomes unmodelled
                 p.ghost["$opaque_boxes"] = p.ghost.get("$opaque_boxes", frozenset()) | {str(recv.z)}
                 return [(p, VOpaque("entry of unmodelled local container"))]
@@ -806,3 +813,11 @@ class BuiltinMixin:
                 fn = self.fn_for(m[0], "__delitem__")
                 return [(q, NEXT if not isinstance(r, Exc) else ("raise", r)) for q, r in self.call_fn(p, fn, [base, idx], {}, node)]
         raise Unsupported(f"del on {base!r} at {w}")
+
+
+def _has_opaque(v):
+    if isinstance(v, VOpaque):
+        return True
+    if isinstance(v, VTup):
+        return any(_has_opaque(i) for i in v.items)
+    return False
